@@ -74,13 +74,14 @@ def build(tier, work, builder):
     # keep only the guard of the unknown-position branch and the four column/line operands: the rest is string formatting
     m = re.search(r"if \((position\.start < start\.position \|\| position\.end < end\.position)\)\s*return msg \+ \" \(Unknown position in document\)\";", est.text)
     cols = re.findall(r"std::to_string\(([^()]*)\)", est.text)
-    if not m or len(cols) != 8 or cols[:4] != cols[4:]:
-        raise X.ExtractionBroken("error_t::str: shape changed (guard + two identical groups of four to_string operands expected)")
+    # one group of four operands per printed form (with / without a path), or one shared group when the common part is built once
+    if not m or len(cols) not in (4, 8) or any(cols[i:i + 4] != cols[:4] for i in range(0, len(cols), 4)):
+        raise X.ExtractionBroken("error_t::str: shape changed (guard + identical groups of four to_string operands expected)")
     est_text = ("void verif_error_str(const error_t& verif_e, int* unknown, uint32_t* out)\n{\n"
                 "    const position_t& position = verif_e.position; const line_t& start = verif_e.start; const line_t& end = verif_e.end;\n"
                 f"    if ({m.group(1)}) {{ *unknown = 1; return; }}\n    *unknown = 0;\n"
                 + "".join(f"    out[{i}] = {c};\n" for i, c in enumerate(cols[:4])) + "}\n")
-    est.rules["C6:string formatting dropped, operands of std::to_string kept in order"] = 8
+    est.rules["C6:string formatting dropped, operands of std::to_string kept in order"] = len(cols)
     lp = X.Source("src/libparser.h")
     pt = X.braced(lp, "struct PositionTracker", r"^struct PositionTracker")
     pt.sub("L4:member{}", r"uint32_t (line|offset|position)\{\};", r"uint32_t \1;", required=True)
